@@ -2,7 +2,7 @@
 C07 — the operative config records exactly what Gin supplied (record part; the replay part is
 tied by running the real replay, see harness/props/c07.py).
 -/
-import Gin.State
+import Gin.Machine
 import Gin.Lemmas.Call
 
 namespace Gin.C07
